@@ -17,11 +17,13 @@ typedef struct { int x; double y; } anon_t;
 typedef enum { AA, AB = 3 } aenum_t;
 typedef int (*fp2_t)(int, char);
 typedef struct P named_t;
+typedef union U uni_t;
 """
 BASES = [["int"], ["unsigned", "int"], ["char"], ["signed", "char"], ["unsigned", "char"], ["short"], ["long"], ["unsigned", "long", "long"], ["float"], ["double"],
-         ["myint"], ["ulong_t"], ["enum", "E"], ["struct", "P"], ["bool"], ["anon_t"], ["aenum_t"], ["named_t"]]
+         ["myint"], ["ulong_t"], ["enum", "E"], ["struct", "P"], ["bool"], ["anon_t"], ["aenum_t"], ["named_t"], ["union", "U"], ["uni_t"]]
 NUMERIC = {"int", "unsigned int", "char", "signed char", "unsigned char", "short", "long", "unsigned long long", "float", "double", "myint", "ulong_t", "enum E", "bool", "aenum_t"}
 STRUCTY = {"struct P", "anon_t", "named_t"}
+UNIONY = {"union U", "uni_t"}
 
 
 def B(words, const=False):
@@ -56,6 +58,8 @@ def expr_of(t, name):
             return "(long)(%s)" % name
         if w in STRUCTY:
             return "((long)%s.x + (long)%s.y)" % (name, name)
+        if w in UNIONY:
+            return "(long)%s.i" % name
         if w == "fp2_t":
             return "(long)%s(3, 'b')" % name
         return None
@@ -65,6 +69,8 @@ def expr_of(t, name):
             return "(long)(*%s)" % name
         if p[0] == "base" and " ".join(p[1]) in STRUCTY:
             return "(long)(%s->x)" % name
+        if p[0] == "base" and " ".join(p[1]) in UNIONY:
+            return "(long)(%s->i)" % name
         if p[0] == "arr":
             return "(long)((*%s)[1])" % name
         if p[0] == "fun":
@@ -87,6 +93,8 @@ def arg_of(t, idx):
             return [], "(%s)%d" % (w, v % 100 if w != "bool" else 1)
         if w in STRUCTY:
             return ["%s sp%d = { %d, %d.5 };" % (w, idx, v, v)], "sp%d" % idx
+        if w in UNIONY:
+            return ["%s su%d = { %d };" % (w, idx, v)], "su%d" % idx
         if w == "fp2_t":
             return [], "cb2"
     if k == "ptr":
@@ -96,6 +104,8 @@ def arg_of(t, idx):
             return ["%s pv%d = (%s)%d;" % (w, idx, w, (v + 1) % 100 if w != "bool" else 1)], "&pv%d" % idx
         if p[0] == "base" and " ".join(p[1]) in STRUCTY:
             return ["%s pp%d = { %d, 1.0 };" % (" ".join(p[1]), idx, v)], "&pp%d" % idx
+        if p[0] == "base" and " ".join(p[1]) in UNIONY:
+            return ["%s pu%d = { %d };" % (" ".join(p[1]), idx, v)], "&pu%d" % idx
         if p[0] == "arr":
             return ["int pa%d[%d] = { %s };" % (idx, p[2], ", ".join(str(v + j) for j in range(p[2])))], "&pa%d" % idx
         if p[0] == "fun":
@@ -117,9 +127,9 @@ def gen_param(r, hazard):
         w = r.choice(BASES)
         if r.random() < 0.06:
             w = ["fp2_t"]
-        return B(w, r.random() < 0.1 and " ".join(w) not in STRUCTY and w != ["fp2_t"])
+        return B(w, r.random() < 0.1 and " ".join(w) not in STRUCTY | UNIONY and w != ["fp2_t"])
     if x < 0.70:
-        w = r.choice([b for b in BASES if " ".join(b) in NUMERIC] + [["struct", "P"], ["anon_t"], ["named_t"]])
+        w = r.choice([b for b in BASES if " ".join(b) in NUMERIC] + [["struct", "P"], ["anon_t"], ["named_t"], ["union", "U"], ["uni_t"]])
         return ("ptr", r.random() < 0.15, B(w, r.random() < 0.4))
     if x < 0.80:
         return ("arr", B(["int"]), r.choice([2, 3, 8]))
@@ -145,8 +155,10 @@ def gen_fn(r, i, hazard):
         ret = B(["void"])
     elif y < 0.75:
         ret = B(["double"])
-    elif y < 0.80:
+    elif y < 0.78:
         ret = B(["struct", "P"])
+    elif y < 0.80:
+        ret = B(r.choice([["union", "U"], ["uni_t"]]))
     elif y < 0.85:
         ret = B(r.choice([["anon_t"], ["aenum_t"], ["fp2_t"], ["named_t"], ["myint"]]))
     elif y < 0.93:
@@ -168,6 +180,8 @@ def fn_text(f):
         body = "side_effect += %s;" % total
     elif r[0] == "base" and " ".join(r[1]) in STRUCTY:
         body = "%s res = { (int)(%s), 0.5 }; return res;" % (" ".join(r[1]), total)
+    elif r[0] == "base" and " ".join(r[1]) in UNIONY:
+        body = "%s res = { (int)(%s) }; return res;" % (" ".join(r[1]), total)
     elif r[0] == "base" and r[1] == ["fp2_t"]:
         body = "side_effect += %s; return cb2;" % total
     elif r[0] == "ptr" and r[2][0] == "base":
@@ -195,6 +209,8 @@ def call_test(f, suffix):
         cmp_ = "side_effect = 0; %s(%s); long s1 = side_effect; side_effect = 0; %s(%s); long s2 = side_effect; ok = (s1 == s2);" % (nm, a, w, a)
     elif r[0] == "base" and " ".join(r[1]) in STRUCTY:
         cmp_ = "%s r1 = %s(%s); %s r2 = %s(%s); ok = (r1.x == r2.x && r1.y == r2.y);" % (" ".join(r[1]), nm, a, " ".join(r[1]), w, a)
+    elif r[0] == "base" and " ".join(r[1]) in UNIONY:
+        cmp_ = "%s r1 = %s(%s); %s r2 = %s(%s); ok = (r1.i == r2.i);" % (" ".join(r[1]), nm, a, " ".join(r[1]), w, a)
     elif r[0] == "ptr" and r[2][0] == "base":
         cmp_ = "int r1 = *%s(%s); int r2 = *%s(%s); ok = (r1 == r2);" % (nm, a, w, a)
     elif r[0] == "ptr" or (r[0] == "base" and r[1] == ["fp2_t"]):
@@ -360,11 +376,167 @@ def run(ck):
                                                                 "; ".join('"%s"' % t for t in toks)))
                 tie_meta.append((f, m.group(0)))
         tie(ck, tie_terms, tie_meta)
+        vlib.build_harness()
+        scenarios(ck, bindgen, tmp)
         if results:
             (hi, hz, fns), res = results[0]
             ck.sample({"header": res["header"][-500:], "wrapper_file": (res["wrap"] or "")[:500]})
     finally:
         shutil.rmtree(tmp, ignore_errors=True)
+
+
+# ---------------------------------------------------------------- configurations the property quantifies over
+SC_PRE = """#include <stdarg.h>
+struct P { int x; double y; };
+union U { int i; float f; };
+enum E { EA, EB = 5 };
+struct outer { struct inner { int q; } in; int z; };
+extern long side_effect;
+"""
+# name -> (definition, prototype of the wrapper (%s = its name), C statements setting `ok` (W = the wrapper))
+SC_FNS = {
+    "sc_plain": ("static inline int sc_plain(int a) { return a + 1; }", "int %s(int);", "ok = (sc_plain(5) == W(5));"),
+    "sc_struct": ("static int sc_struct(struct P p, union U u, enum E e) { return p.x + u.i + (int)e; }", "int %s(struct P, union U, enum E);",
+                  "{ struct P p = { 3, 1.5 }; union U u = { 9 }; ok = (sc_struct(p, u, EB) == W(p, u, EB)); }"),
+    "sc_void": ("static inline void sc_void(int a) { side_effect += a; }", "void %s(int);",
+                "{ side_effect = 0; sc_void(7); long s1 = side_effect; side_effect = 0; W(7); ok = (s1 == side_effect); }"),
+    "sc_nested": ("static inline int sc_nested(struct inner *p) { return p->q; }", "int %s(struct inner *);", "{ struct inner i = { 41 }; ok = (sc_nested(&i) == W(&i)); }"),
+    "sc_md": ("static inline int sc_md(int m[2][3]) { return m[1][2]; }", "int %s(int (*)[3]);", "{ int m[2][3] = { {1, 2, 3}, {4, 5, 6} }; ok = (sc_md(m) == W(m)); }"),
+    # (without a ParseCallbacks::wrap_as_variadic_fn answer the wrapper takes the va_list itself)
+    "sc_va": ("static inline int sc_va(int n, va_list ap) { return n + va_arg(ap, int); }", "int %s(int, va_list);", "ok = (direct_va(3, 4) == wrapped_va(3, 4));"),
+    "match": ("static inline int match(int a) { return a + 2; }", "int %s(int);", "ok = (match(5) == W(5));"),
+    "sc_ptrs": ("static inline long sc_ptrs(const int *a, char *const b, int (*cb)(int, char)) { return *a + *b + cb(1, 'a'); }", "long %s(const int *, char *const, int (*)(int, char));",
+                "{ int a = 4; char b = 'q'; ok = (sc_ptrs(&a, &b, cbx) == W(&a, &b, cbx)); }"),
+}
+SCENARIOS = [
+    # (name, functions, extra flags, clang args, mode, suffix)
+    ("cli-path", ["sc_plain", "sc_struct", "sc_void", "sc_ptrs"], [], [], "cli", None),
+    ("custom-suffix-and-path", ["sc_plain", "sc_struct", "sc_void"], [], [], "cli", "_wrapped9"),
+    ("enable-cxx-namespaces", ["sc_plain", "sc_struct", "sc_void"], ["--enable-cxx-namespaces"], [], "cli", None),
+    ("prefix-link-name", ["sc_plain", "sc_void"], ["--prefix-link-name", "pre_"], [], "cli", None),
+    ("c-naming", ["sc_struct"], ["--c-naming"], [], "cli", None),
+    ("nested-struct-parameter", ["sc_nested"], [], [], "cli", None),
+    ("multi-dimensional-array-parameter", ["sc_md"], [], [], "cli", None),
+    ("va_list-parameter", ["sc_va", "sc_plain"], [], [], "cli", None),
+    ("rust-keyword-name", ["match", "sc_plain"], [], [], "cli", None),
+    ("cxx-mode", ["sc_plain", "sc_void"], [], ["-x", "c++"], "cli", None),
+    ("merge-extern-blocks-sort", ["sc_plain", "sc_struct", "sc_void"], ["--merge-extern-blocks", "--sort-semantically"], [], "cli", None),
+    ("allowlist", ["sc_plain", "sc_void"], ["--allowlist-function", "sc_plain"], [], "cli", None),
+    ("builder-path", ["sc_plain", "sc_struct", "sc_void"], [], [], "path", None),
+    ("several-headers", ["sc_plain", "sc_void", "sc_struct"], [], [], "multi", "_m"),
+    ("in-memory-contents", ["sc_plain", "sc_struct", "sc_void"], [], [], "contents", None),
+    ("in-memory-contents-twice", ["sc_plain", "sc_void", "sc_struct"], [], [], "contents2", None),
+]
+
+
+def scenarios(ck, bindgen, tmp):
+    exe = os.path.join(vlib.TARGET, "debug", "bgv")
+
+    def one(sc):
+        name, fns, flags, cargs, mode, suffix = sc
+        d = os.path.join(tmp, "sc_" + name)
+        os.makedirs(os.path.join(d, "out dir"))
+        suf = suffix or "__extern"
+        cpp = "c++" in cargs
+        pre = SC_PRE + "static int cbx(int a, char b) { return a * 2 + b; }\n"
+        split = mode in ("multi", "contents2")
+        first = fns[:1] if split else fns
+        h1 = os.path.join(d, "one.h")
+        if mode == "contents2":
+            # two in-memory headers: each brings the common declarations under an include guard (bindgen passes the second one with
+            # -include, so it is read BEFORE the first)
+            pre = "#ifndef SC_PRE_H\n#define SC_PRE_H\n" + pre + "#endif\n"
+        open(h1, "w").write(("#pragma once\n" if mode == "multi" else "") + pre + "".join(SC_FNS[f][0] + "\n" for f in first))
+        hs = [h1]
+        if split:
+            h2 = os.path.join(d, "two.h")
+            # (two in-memory headers: the second one relies on the first having been seen, as two real headers given in order may)
+            open(h2, "w").write(('#include "one.h"\n' if mode == "multi" else pre) + "".join(SC_FNS[f][0] + "\n" for f in fns[1:]))
+            hs.append(h2)
+        wpath = os.path.join(d, "out dir", "wr") if suffix else os.path.join(d, "wr")
+        if mode == "cli":
+            fl = ["--experimental", "--wrap-static-fns", "--wrap-static-fns-path", wpath, "--no-layout-tests"] + (["--wrap-static-fns-suffix", suffix] if suffix else []) + flags
+            rc, out, err = sh2([bindgen, h1] + fl + (["--"] + cargs + ["-I", d] if cargs else ["--", "-I", d]), timeout=120, cwd=d)
+        else:
+            rc, o, err = sh2([exe, "wrap", {"path": "path", "multi": "multi", "contents": "contents", "contents2": "contents"}[mode], vlib.enc(wpath), vlib.enc(suffix) if suffix else "-"] + [vlib.enc(h) for h in hs],
+                             timeout=120, cwd=d)
+            out = vlib.dec(o.strip()[3:]) if o.startswith("OK ") else ""
+            rc = 0 if o.startswith("OK ") else 1
+            err = err + o[:300]
+        res = {"rc": rc, "bindings": out, "err": err, "dir": d, "headers": {os.path.basename(h): open(h).read() for h in hs}, "flags": flags + cargs, "mode": mode, "suffix": suf}
+        wf = wpath + (".cpp" if cpp else ".c")
+        res["wrap"] = open(wf).read() if os.path.exists(wf) else None
+        res["other_wrap_files"] = sorted(x for x in os.listdir(os.path.dirname(wpath)) if x.startswith("wr"))
+        if rc != 0:
+            return sc, res
+        if res["wrap"] is not None:
+            std = ["-x", "c++", "-std=c++17"] if cpp else ["-std=gnu11"]
+            rc2, o2, e2 = sh2(["clang"] + std + ["-c", "-I", d, "-Wno-duplicate-decl-specifier", "-o", os.path.join(d, "wr.o"), wf], cwd=d, timeout=120)
+            res["cc"] = (rc2, e2)
+            if rc2 == 0:
+                rc3, o3, e3 = sh2(["nm", "--defined-only", "-g", os.path.join(d, "wr.o")], timeout=60)
+                res["nm"] = sorted(l.split()[-1] for l in o3.splitlines() if " T " in l)
+                # behaviour of every function whose wrapper symbol exists
+                tests, protos = [], ""
+                for f in fns:
+                    w = f + suf
+                    if w in res["nm"]:
+                        protos += (SC_FNS[f][1] % w) + "\n"
+                        tests.append("{ int ok; %s if (!ok) { printf(\"MISMATCH %s\\n\"); bad++; } else printf(\"SAME %s\\n\"); }" % (re.sub(r"\bW\(", w + "(", SC_FNS[f][2]), f, f))
+                t = os.path.join(d, "t.c")
+                helper = "static int direct_va(int n, ...) { va_list ap; va_start(ap, n); int r = sc_va(n, ap); va_end(ap); return r; }\n" if "sc_va" in fns else ""
+                if "sc_va" + suf in res["nm"]:
+                    protos += "static int wrapped_va(int n, ...) { va_list ap; va_start(ap, n); int r = sc_va%s(n, ap); va_end(ap); return r; }\n" % suf
+                open(t, "w").write('#include <stdio.h>\n#include "%s"\nlong side_effect;\n%s%s\nint main(void) { int bad = 0;\n%s\nreturn bad != 0; }\n' % (os.path.basename(hs[-1]) if mode != "contents2" else 'one.h"\n#include "two.h', helper, protos, "\n".join(tests)))
+                if not cpp:
+                    rc4, o4, e4 = sh2(["clang", "-std=gnu11", "-w", "-I", d, "-o", os.path.join(d, "t"), t, os.path.join(d, "wr.o")], cwd=d, timeout=120)
+                    if rc4 == 0:
+                        rc5, o5, e5 = sh2([os.path.join(d, "t")], timeout=60)
+                        res["run"] = (rc5, o5)
+                    else:
+                        res["run"] = (-1, e4[-600:])
+        return sc, res
+    with ThreadPoolExecutor(max_workers=vlib.NCPU) as ex:
+        results = list(ex.map(one, SCENARIOS))
+    for (name, fns, flags, cargs, mode, suffix), res in results:
+        ck.evaluations += 1
+        ck.nontrivial.add("scenario:" + name)
+        data = {"scenario": name, "headers": res["headers"], "flags": res["flags"], "mode": res["mode"], "wrapper_file": res["wrap"], "suffix": res["suffix"]}
+        if res["rc"] != 0:
+            ck.violation("C16-scenario:bindgen-failed:" + name, "bindgen fails on a header of static functions", dict(data, stderr=res["err"][-600:]))
+            continue
+        suf = res["suffix"]
+        # every binding of a static function and the symbol it points at
+        bound = {}
+        for m in re.finditer(r'(?:#\[link_name = "((?:\\u\{1\})?)([^"]+)"\]\s*)?pub fn (\w+)\s*\(', res["bindings"]):
+            bound[m.group(3)] = m.group(2) or m.group(3)
+        mine = {f: bound.get(f) or bound.get(f + "_") for f in fns if (f in bound or f + "_" in bound)}
+        if name == "allowlist" and "sc_void" in mine:
+            ck.violation("C16-scenario:not-allowlisted-bound:" + name, "a static function outside the allowlist got a binding", dict(data, bound=mine))
+        if not mine:
+            continue
+        if res["wrap"] is None:
+            ck.violation("C16-scenario:no-wrapper-file:" + name, "static functions got bindings (%s) but no wrapper source was written" % sorted(mine.items()), dict(data, files=res["other_wrap_files"], bindings=res["bindings"][-1500:]))
+            continue
+        rc2, e2 = res.get("cc", (1, ""))
+        if rc2 != 0:
+            ck.violation("C16-scenario:wrapper-does-not-compile:" + name, "the emitted wrapper source does not compile against the header", dict(data, clang=e2[-800:]))
+            continue
+        dangling = {f: l for f, l in mine.items() if l not in res["nm"]}
+        if dangling:
+            ck.violation("C16-scenario:dangling-binding:" + name, "bindings of static functions point at symbols the wrapper file does not define: %s" % sorted(dangling.items()), dict(data, defined=res["nm"], bindings=res["bindings"][-1500:]))
+        wrong = {f: l for f, l in mine.items() if l in res["nm"] and l != f + suf}
+        if wrong:
+            ck.violation("C16-scenario:link-name:" + name, "binding does not point at <name><suffix>", dict(data, wrong=wrong))
+        extra = [x for x in res["nm"] if x not in [f + suf for f in fns] + ["cbx" + suf]]
+        dup = [x for x in set(res["nm"]) if res["nm"].count(x) > 1]
+        if extra or dup:
+            ck.violation("C16-scenario:wrapper-symbols:" + name, "the wrapper object defines other external symbols than one wrapper per bound function", dict(data, defined=res["nm"]))
+        if "run" in res:
+            rc5, o5 = res["run"]
+            if rc5 != 0:
+                ck.violation("C16-scenario:behaviour:" + name, "calling the wrapper does not behave like calling the static function", dict(data, detail=o5[-500:]))
+    ck.notes["scenarios"] = len(results)
 
 
 def tie(ck, terms, meta):
